@@ -80,7 +80,8 @@ CLAIMS = {
   text="Theorems: handler = first operand of maximal backend priority; result backend/flavor rule of dispatch; dimension rule of _wrap_result per declared result shape; "
        "dimension guards of the nine same-dimension methods, cross, rotate_axis, boosts; operators = methods; TOTALITY of all 82 generated dispatch tables over their key "
        "types (decide +kernel). Correspondence: complete object-backend lattice (exact, symbolic) and a cross-backend type lattice (object/NumPy/Awkward array/record, both "
-       "registration modes) against the model's prediction; `_wrap_result` of the object, NumPy, Awkward and SymPy backends called DIRECTLY on the whole finite lattice (28 declared result shapes x 20 stored systems x flavors: class, system and source of every coordinate vs the Lean rule wrapVec); operator/ufunc value lattice (abs ** numpy.power/sqrt/cbrt/square * / - + @ == != vs methods) on all backends; keyword = positional calls from the documented signatures. Five known findings in the Awkward backend are listed, everything else must match.",
+       "registration modes) against the model's prediction; `_wrap_result` of the object, NumPy, Awkward and SymPy backends called DIRECTLY on the whole finite lattice (28 declared result shapes x 20 stored systems x flavors: class, system and source of every coordinate vs the Lean rule wrapVec); operator/ufunc value lattice (abs ** numpy.power/sqrt/cbrt/square * / - + @ == != vs methods) on all backends; keyword = positional calls from the documented signatures. Five known findings in the Awkward backend are listed, everything else must match. "
+       "UFUNC ROUTING MODEL (Glue/Ufunc.lean, Props/C05Ufunc.lean, ~50 theorems c05u_; Driver/Ufunc.lean, harness/ufunc.py): the four __array_ufunc__ / behavior tables transcribed branch by branch; proved: the object, NumPy and SymPy chains are ONE chain (c05u_tables_agree), Awkward's 420-key registry is complete and agrees wherever they accept, every accepted route IS the operator of Glue/Methods applied in the documented order (multiply(k, v) = multiply(v, k) = scale ...), the exact set of rejected shapes, out= honoured exactly for vector-valued routes, deferral to the higher-priority backend; every difference between the tables is a theorem with a witness (power with out=, power(v, 2) on spacelike vectors, array exponents, flavor lost in __cast__). Tie: ~9 900 requests per quick run (30 235 thorough): the model's route is evaluated on the real library and compared with numpy.<ufunc>(...), the Python operator and in-place forms, and the registry keys.",
   note=GL + "known-finding classes mask further changes of the same class (see DESIGN.md).",
   technique="Lean 4 proofs (incl. decide over generated tables) + exhaustive/sampled correspondence of result types"),
  "C06": dict(category="proof", design="4/C06",
@@ -95,7 +96,8 @@ CLAIMS = {
   text="Lean model numbaCall of what COMPILED code returns (typing-time decisions of _numba_object.py: group by minimum dimension, signature, table lookup in the same generated tables, result class) "
        "next to the interpreter model call; theorems: for every supported property/method, whenever the interpreter succeeds and flavors agree the compiled result is identical (module, key, argument order, "
        "class, coordinates), plus the exact characterisation of every difference (mixed flavor, boosts take self's class, mixed dimensions, unsupported names, keyword arguments, order-string case). API SWEEP: every attribute, method, operator and constructor form numba's typing context resolves is compiled and compared with the interpreter (about 475 expressions per quick run), plus Awkward arrays (also with raw momentum field names) iterated in compiled code. "
-       "Tie: numba's typing context asked for ~650 result types per quick run (19 960 in the agent's validation, 0 mismatches) and parallel compile-and-run probes (values and classes vs the interpreter). OVER THE REALS (Props/MethodBackends.lean, c07m_): EvTables for the real layer, numbaCall = call for every supported family whenever the interpreter succeeds, so every method-level denotation theorem transfers to compiled code; the documented differences (mixed flavor, mixed dimensions) characterised over the reals.",
+       "Tie: numba's typing context asked for ~650 result types per quick run (19 960 in the agent's validation, 0 mismatches) and parallel compile-and-run probes (values and classes vs the interpreter). OVER THE REALS (Props/MethodBackends.lean, c07m_): EvTables for the real layer, numbaCall = call for every supported family whenever the interpreter succeeds, so every method-level denotation theorem transfers to compiled code; the documented differences (mixed flavor, mixed dimensions) characterised over the reals. "
+       "FIELD LOOKUP (Props/C14Fields.lean): numba's typing and lowering chains over Awkward record fields next to the interpreter's from_fields / from_momentum_fields chains; c14f_numba_agrees: for EVERY field list the compiled view reads the interpreter's values (errors become TypingError); the one difference is a dtype conflict on records carrying two spellings of a coordinate (c14f_numba_dtype_conflict: known finding).",
   note=GL + "the Numba compiler (LLVM code generation) is not modelled; three known findings (mixed flavor, boost flavor, order case).",
   technique="Lean 4 proofs relating two hand-written executable models + numba typing-context / compile-and-run correspondence"),
  "C08": dict(category="proof", design="4/C08",
@@ -132,7 +134,8 @@ CLAIMS = {
   text="Theorems about the glue model: every momentum spelling resolves to the accessor of its geometric name (28 equations + completeness), calls and setters through a synonym "
        "equal those through the geometric name, to_* momentum conversions equal their geometric counterparts (C04), and flavor never changes a number (dispatch results agree after "
        "forgetting the momentum flag). Tie: symbolic correspondence for getters/conversions/setters on the object backend; NumPy and Awkward field access and item assignment through "
-       "every synonym compared value for value; every derived alias (pt2, p, E2, mass2, transverse_mass2 ...) equals its geometric name on NumPy/Awkward arrays and in numba-compiled code; raw Awkward records carrying each momentum spelling as the field name read like the geometric spelling.",
+       "every synonym compared value for value; every derived alias (pt2, p, E2, mass2, transverse_mass2 ...) equals its geometric name on NumPy/Awkward arrays and in numba-compiled code; raw Awkward records carrying each momentum spelling as the field name read like the geometric spelling. "
+       "FIELD-LOOKUP MODEL of Awkward records (Glue/Fields.lean, Props/C14Fields.lean, 33 main theorems c14f_; Driver/Fields.lean, harness/fields.py): the six from_fields / from_momentum_fields chains and numba's typing / lowering chains transcribed branch by branch; proved for all field lists with distinct names: order-independence, extras never matter, each of the ten synonyms is exact when no other spelling of the coordinate is present (and a witness that the side condition is needed), priorities in closed form, generic records ignore momentum spellings, and - the repair 17af0b2 - reading the wrapped result of _wrap_result gives the FRESH coordinates for every field list of self (c14f_wrap_fresh_az / _full). Tie: ~1 900 records per quick run through the driver vs the array view, the record view and the compiled view.",
   note=GL, technique="Lean 4 proofs about a hand-written executable model + exact symbolic / exhaustive synonym-table correspondence"),
  "C15": dict(category="proof", design="4/C15",
   text="The object vector as a state machine (assignment to any coordinate by any spelling, += -= *= /=): by induction over ALL finite histories class/flavor/dimension are invariant, "
